@@ -306,8 +306,8 @@ def main():
             print(idx, B.spec_ident(spec), spec.get('dest'), obs['events'])
         for (sig, what) in bad:
             print('ORACLE-FAIL %s: %s' % (sig, what))
-        real = [item for item in bad if item[0] not in PENDING_FINDINGS]
-        print('replay: %d oracle failure(s), %d pending-finding(s)' % (len(real), len(bad) - len(real)))
+        real = [item for item in bad if item[0] not in PENDING_FINDINGS and chk.known_match(item[0]) is None]
+        print('replay: %d oracle failure(s), %d known/pending finding(s)' % (len(real), len(bad) - len(real)))
         sys.exit(1 if real else 0)
 
     import time
